@@ -21,7 +21,7 @@ pub fn run_case(ctx: &Ctx, case: u64, ev: &mut Ev) {
     // armed without faults: lets the monitor see whether the LP backend itself reported an error
     let _hook = crate::util::HookGuard::new();
     let mut rng = Rng::derive(ctx.seed, "C06", case);
-    rng.big = ctx.tier == crate::Tier::Thorough && rng.chance(0.2);
+    rng.big = crate::draw_big(ctx, &mut rng);
     if rng.chance(0.65) {
         run_tree(case, &mut rng, ev);
     } else {
